@@ -6,7 +6,7 @@ cd /verif
 ids=${@:-$(ls seeded)}
 for id in $ids; do
   d=seeded/$id; pid=$(python3 -c "import json;print(json.load(open('$d/meta.json'))['breaks'])")
-  git -C /repo apply $d/patch.diff || { echo "$id APPLY-FAILED"; continue; }
+  git -C /repo apply /verif/$d/patch.diff || { echo "$id APPLY-FAILED"; continue; }
   out=$(timeout 2400 ./check $pid --tier quick 2>&1); rc=$?
   git -C /repo checkout -q -- . ; git -C /repo clean -fdq
   v=$(echo "$out" | grep VIOLATION | head -1)
